@@ -60,7 +60,7 @@ var (
 // runeLen: the number of bytes utf8.EncodeRune writes (3 for the replacement
 // character that stands for invalid runes).
 //
-//@ pure
+// @ pure
 func runeLen(r rune) int {
 	if r < 0 {
 		return 3
@@ -98,7 +98,7 @@ func runeLen(r rune) int {
 // sentinels: the three error values the transformers report are initialised
 // and pairwise distinct (package-level state, assumed at entry).
 //
-//@ pure
+// @ pure
 func sentinels() bool {
 	return ErrInvalidUTF7 != nil && transform.ErrShortSrc != nil && transform.ErrShortDst != nil &&
 		ErrInvalidUTF7 != transform.ErrShortSrc && ErrInvalidUTF7 != transform.ErrShortDst && transform.ErrShortSrc != transform.ErrShortDst
@@ -107,7 +107,7 @@ func sentinels() bool {
 // printable: the bytes that represent themselves in modified UTF-7; the
 // encoder may emit nothing else.
 //
-//@ pure
+// @ pure
 func printable(ch byte) bool { return min <= ch && ch <= max }
 
 // encode: a non-empty run of bytes becomes "&" base64 "-", all printable ASCII,
@@ -164,10 +164,10 @@ func printable(ch byte) bool { return min <= ch && ch <= max }
 // lemmaSameBytes restates an element-wise equality so that it can be used in
 // both directions.
 //
-//@ lemma
-//@ requires len(a) <= len(b)
-//@ requires forall k int :: 0 <= k && k < len(a) ==> b[k] == a[k]
-//@ ensures forall k int :: 0 <= k && k < len(a) ==> a[k] == b[k]
+// @ lemma
+// @ requires len(a) <= len(b)
+// @ requires forall k int :: 0 <= k && k < len(a) ==> b[k] == a[k]
+// @ ensures forall k int :: 0 <= k && k < len(a) ==> a[k] == b[k]
 func lemmaSameBytes(a, b []byte) {}
 
 // decode never indexes outside its buffers, for every non-empty input: the
